@@ -130,10 +130,16 @@ def rand_layout_kwargs(rng):
     keys = {k.keyid: k.pub for k in rng.sample(pool, rng.randrange(0, 3))}
     steps = []
     for j in range(rng.randrange(0, 3)):
-        steps.append(Step(name="s%d%s" % (j, rstr(rng, 3)), pubkeys=list(keys)[:1], threshold=rng.choice([1, 2, 0, 1]),
+        # (several authorised ids, in DEscending order for the first step and shuffled for the others: their order is
+        #  part of the signed content and must come back from a file as it went in)
+        ids = [k.keyid for k in rng.sample(pool, rng.randrange(2, 4))]
+        ids = sorted(ids, reverse=True) if j == 0 else ids
+        steps.append(Step(name="s%d%s" % (j, rstr(rng, 3)), pubkeys=(ids if rng.random() < 0.7 or j == 0 else list(keys)[:1]), threshold=rng.choice([1, 2, 0, 1]),
                           expected_materials=[["ALLOW", rstr(rng, 5) or "*"]],
                           expected_products=[["MATCH", "*", "WITH", "PRODUCTS", "FROM", "x"], ["DISALLOW", "*"]],
                           expected_command=[rstr(rng, 5)]))
+        if j == 0 or rng.random() < 0.5:
+            steps[-1].pubkeys = list(ids)          # (assigned after construction, as the documentation builds layouts)
     insp = [Inspection(name="i" + rstr(rng, 3), run=["true", rstr(rng, 4)])] if rng.random() < 0.5 else []
     return {"steps": steps, "inspect": insp, "keys": keys, "readme": rstr(rng, 20),
             "expires": "20%02d-0%d-1%dT0%d:00:59Z" % (rng.randrange(27, 99), rng.randrange(1, 10), rng.randrange(0, 10), rng.randrange(0, 10))}
